@@ -182,7 +182,8 @@ func LogicalCols(qf qframe.QFrame) string {
 	return hlib.List(it)
 }
 
-// Coerce describes one CoercePair: Kind 1 = Int64ToBool, 2 = StringToFloat.
+// Coerce describes one CoercePair: Kind 1 = Int64ToBool, 2 = StringToFloat, 0 = the Type left out
+// (qsql.CoercePair{Column: name}: config/sql.Coerce stores a nil function for it).
 type Coerce struct {
 	Column string
 	Kind   int
@@ -205,12 +206,20 @@ func CoerceKind(k int) string {
 	return "CoStringToFloat"
 }
 
+// CoerceEntry prints the function of a map entry as an option coerce_kind (None = no function).
+func CoerceEntry(k int) string {
+	if k == 0 {
+		return "None"
+	}
+	return "(Some " + CoerceKind(k) + ")"
+}
+
 func (c Config) Coq() string {
 	co := "None"
 	if c.HasCoerce {
 		it := make([]string, len(c.Coerce))
 		for i, p := range c.Coerce {
-			it[i] = hlib.Pair(hlib.Str(p.Column), CoerceKind(p.Kind))
+			it[i] = hlib.Pair(hlib.Str(p.Column), CoerceEntry(p.Kind))
 		}
 		co = "(Some " + hlib.List(it) + ")"
 	}
